@@ -124,6 +124,7 @@ def replay_extrema(states, leaf):
             lab2case["case %d max r%d" % (c, i)] = c
             lab2case["case %d min r%d" % (c, i)] = c
     key_data = leaf[0]
+    given = []
     for n, c in enumerate(st0.added):
         if st0.form in ("two", "frf"):
             e = np.array([[val(st0.data[c][r][0]), val(st0.data[c][r][1])] for r in R])
@@ -135,9 +136,16 @@ def replay_extrema(states, leaf):
         mincase = ["case %d min r%d" % (c, i) for i in range(nr)]
         if st0.form == "one":
             mincase = None  # one-column form labels both columns from `maxcase`
-        cla.extrema(cur, SimpleNamespace(ext=e, ext_x=x), maxcase, mincase, c - 1)
+        mm = SimpleNamespace(ext=e, ext_x=x)
+        given.append((c, mm, e.copy(), x.copy()))
+        cla.extrema(cur, mm, maxcase, mincase, c - 1)
         st = states[(key_data, tuple(st0.added[: n + 1]))]
         msg = check_state(st, cur.ext, cur.ext_x, cur.maxcase, cur.mincase, cur.mx, cur.mn, lab2case)
+        if msg is None:
+            # the spec's AddCase leaves `data` UNCHANGED: a case's own max/min record is never written by later updates
+            for cc, mmc, e0, x0 in given:
+                if not (np.array_equal(mmc.ext, e0, equal_nan=True) and np.array_equal(mmc.ext_x, x0, equal_nan=True)):
+                    msg = "the max/min record passed in for case %d was modified by a later update (aliasing)" % cc
         if msg is None and st0.form != "one":
             for i in range(nr):
                 if not cur.maxcase[i].endswith("max r%d" % i) or not cur.mincase[i].endswith("min r%d" % i):
@@ -284,6 +292,9 @@ def replay_form_extreme(states, leaf, use_case_order):
         resp_of[c] = (t, resp, present)
         res.time_data_recovery({(1, 1, 1, 1): SimpleNamespace(resp=resp, t=t, h=1.0)}, None, "lc", DR, 1, 0, dosrs=False)
         evs[c] = res
+    import copy as _copy
+    snap = {c: _copy.deepcopy({k: getattr(evs[c]["cat"], k) for k in ("ext", "ext_x", "mx", "mn", "mx_x", "mn_x", "maxcase", "mincase")})
+            for c in evs}
     top = cla.DR_Results()
     order = st0.added
     if use_case_order:
@@ -315,6 +326,31 @@ def replay_form_extreme(states, leaf, use_case_order):
                       e.mx[idx], e.mn[idx], lab2case, xs_of, colmap)
     if msg is None and list(e.cases) != ["ev%d" % c for c in order]:
         msg = "cases = %r" % (e.cases,)
+
+    def parts_changed():
+        for c in evs:
+            for k, v0 in snap[c].items():
+                v1 = getattr(evs[c]["cat"], k)
+                same_ = (v0 == v1) if isinstance(v0, list) else np.array_equal(v0, v1, equal_nan=True)
+                if not same_:
+                    return "forming the envelope modified the tables of event ev%d (%s)" % (c, k)
+        return None
+
+    if msg is None:
+        msg = parts_changed()
+    if msg is None:
+        first = {k: _copy.deepcopy(getattr(e, k)) for k in ("ext", "ext_x", "mx", "mn", "mx_x", "mn_x", "maxcase", "mincase")}
+        if use_case_order:
+            top.form_extreme(case_order=["ev%d" % c for c in order])
+        else:
+            top.form_extreme()
+        e2 = top["extreme"]["cat"]
+        for k, v0 in first.items():
+            v1 = getattr(e2, k)
+            same_ = (v0 == v1) if isinstance(v0, list) else np.array_equal(v0, v1, equal_nan=True)
+            if not same_:
+                msg = "a second form_extreme() gives a different envelope (%s)" % k
+        msg = msg or parts_changed()
     if msg:
         return "form_extreme(order %r, case_order=%s): %s" % (order, use_case_order, msg)
     return None
